@@ -12,6 +12,7 @@ import (
 	"errors"
 	"fmt"
 	"io"
+	"math"
 	"strings"
 	"sync"
 	"sync/atomic"
@@ -272,6 +273,12 @@ type JS struct {
 	M    map[string]string `json:"m"`
 	B    bool              `json:"b"`
 	Pad  int               `json:"pad,omitempty"` // S is followed by this many padding characters
+
+	// Bad > 0: the sample holds, somewhere after its beginning, a value JSON has no notation for
+	// (BadVal: 0 NaN, 1 +Inf, 2 -Inf, 3 a channel, 4 a func); Bad is the place (see badValue).
+	// Kind is ignored then.
+	Bad    int `json:"unencodable_at,omitempty"`
+	BadVal int `json:"unencodable_value,omitempty"`
 }
 
 const padLetters = "abcdefghijklmnopqrstuvwxyzABCDEFGHIJKLMNOPQRSTUVWXYZ0123456789"
@@ -306,7 +313,111 @@ type recSample struct {
 	Inner recSub            `json:"inner"`
 }
 
+// latSample is what a gun that measures in float64 reports.
+type latSub struct {
+	Name string  `json:"name"`
+	F    float64 `json:"f"`
+	V    any     `json:"v,omitempty"`
+}
+
+type latSample struct {
+	Tag   string             `json:"tag"`
+	Lat   float64            `json:"latency"`
+	Num   int64              `json:"num"`
+	Extra any                `json:"extra,omitempty"`
+	Sub   *latSub            `json:"sub,omitempty"`
+	Vals  []float64          `json:"vals,omitempty"`
+	Attr  map[string]float64 `json:"attr,omitempty"`
+	Flag  bool               `json:"flag"`
+}
+
+// places of the unencodable value inside a sample (JS.Bad)
+const (
+	badNone        = iota
+	badStructField // a later field of a struct value
+	badPtrStruct   // the same behind a pointer (the sample is a *struct)
+	badNestedPtr   // in a struct that a pointer field of the sample points to
+	badListLast    // the last element of a list sample
+	badSliceField  // a later element of a slice held by a struct field
+	badMapValue    // a value of a map sample
+	badMapField    // a value of a map held by a struct field
+	badWhole       // the sample itself
+	badPlaces
+)
+
+var badPlaceNames = [badPlaces]string{"", "struct_field", "ptr_struct", "nested_ptr", "list_last", "slice_field", "map_value", "map_field", "whole"}
+
+// badValue builds the sample of a JS with Bad > 0.
+func (j JS) badValue() any {
+	var f float64
+	var v any // the value when it is not a float
+	switch j.BadVal {
+	case 0:
+		f = math.NaN()
+	case 1:
+		f = math.Inf(1)
+	case 2:
+		f = math.Inf(-1)
+	case 3:
+		v = make(chan int)
+	default:
+		v = func() {}
+	}
+	isF := v == nil
+	bad := v
+	if isF {
+		bad = f
+	}
+	ls := latSample{Tag: j.text(), Lat: 0.25, Num: j.N, Flag: j.B}
+	switch j.Bad {
+	case badStructField, badPtrStruct:
+		if isF {
+			ls.Lat = f
+		} else {
+			ls.Extra = v
+		}
+		if j.Bad == badPtrStruct {
+			return &ls
+		}
+		return ls
+	case badNestedPtr:
+		ls.Sub = &latSub{Name: j.S, F: 1}
+		if isF {
+			ls.Sub.F = f
+		} else {
+			ls.Sub.V = v
+		}
+		return &ls
+	case badListLast:
+		if isF && j.B {
+			return []float64{1, 0.5, f}
+		}
+		return []any{j.text(), j.N, j.B, bad}
+	case badSliceField:
+		if isF {
+			ls.Vals = []float64{0.5, f, 2}
+		} else {
+			ls.Extra = []any{j.N, v, "x"}
+		}
+		return ls
+	case badMapValue:
+		return map[string]any{"s": j.text(), "n": j.N, "x": bad}
+	case badMapField:
+		if isF {
+			ls.Attr = map[string]float64{"a": 1, "b": f}
+		} else {
+			ls.Extra = map[string]any{"a": 1, "b": v}
+		}
+		return ls
+	default:
+		return bad
+	}
+}
+
 func (j JS) value() any {
+	if j.Bad > 0 {
+		return j.badValue()
+	}
 	rs := recSample{Tag: j.text(), Num: j.N, Vals: j.L, Attr: j.M, Flag: j.B, Inner: recSub{Name: j.S, On: !j.B}}
 	if j.B {
 		rs.Sub = &recSub{Name: j.S + "/sub", On: true}
@@ -405,6 +516,20 @@ type EncCase struct {
 	// after every BurstLen reports a reporter pauses for BurstPauseUs (0 = no bursts)
 	BurstLen     int `json:"burst_len,omitempty"`
 	BurstPauseUs int `json:"burst_pause_us,omitempty"`
+
+	// marshal-float-with-6-digits of the JSON encoder (the ordinary samples hold no floats; it selects
+	// the float encoder that meets the NaN / Inf of an unencodable sample)
+	Float6 bool `json:"marshal_float_with_6_digits,omitempty"`
+}
+
+// genBadJS draws a sample that cannot be marshalled: NaN / +-Inf / a channel / a func at one of the
+// places of badValue.
+func genBadJS(t *rapid.T) JS {
+	j := genJS(t)
+	j.L, j.M = nil, nil
+	j.Bad = rapid.SampledFrom([]int{badStructField, badStructField, badPtrStruct, badNestedPtr, badListLast, badSliceField, badMapValue, badMapField, badWhole}).Draw(t, "unencodableAt")
+	j.BadVal = rapid.SampledFrom([]int{0, 0, 1, 2, 3, 4}).Draw(t, "unencodableValue")
+	return j
 }
 
 func genEncCase(t *rapid.T) EncCase {
@@ -433,6 +558,32 @@ func genEncCase(t *rapid.T) EncCase {
 		if c.WriteDelayUs > 0 {
 			c.SlowFrom = rapid.IntRange(0, 2).Draw(t, "slowFrom")
 			c.SlowWrites = rapid.IntRange(1, 4).Draw(t, "slowWrites")
+		}
+	}
+	// 1 history of 5: among the ordinary samples 1-3 that cannot be marshalled (a gun that reports a
+	// float64 latency computed as 0/0, a sample struct that carries a channel ...), each at a drawn
+	// place of a drawn reporter's list. The aggregator may fail then ('sample encode failed'), but
+	// what it has written must still be whole lines of reported samples, and when Run returns nil
+	// or only the dropped count, everything must be accounted for (see encRun).
+	//
+	// Such histories are generated with sort_map_keys off only. With it on, jsoniter's sorted-map
+	// encoder (like its json.Marshaler encoder, which no sample here needs) hands the stream's
+	// content to the encoder's bufio.Writer in the middle of a value; when a later sample fails,
+	// jsonEncoder.Flush on the aggregator's way out leaves the stream alone (its error is sticky)
+	// but flushes that bufio.Writer: the unchanged code then ends the output with the unterminated
+	// beginning of a line - of the failing sample if it holds a map itself, else of the last ordinary
+	// sample with a map (reported as a finding; not asserted here until it is settled).
+	if rapid.IntRange(0, 4).Draw(t, "unencodable") == 0 {
+		c.SortKeys = false
+		c.Float6 = rapid.Bool().Draw(t, "float6")
+		n := rapid.IntRange(1, 3).Draw(t, "unencodableN")
+		for i := 0; i < n; i++ {
+			b := genBadJS(t)
+			r := rapid.IntRange(0, len(c.Reporters)-1).Draw(t, "unencodableReporter")
+			at := rapid.IntRange(0, len(c.Reporters[r])).Draw(t, "unencodablePos")
+			rep := append([]JS(nil), c.Reporters[r][:at]...)
+			rep = append(rep, b)
+			c.Reporters[r] = append(rep, c.Reporters[r][at:]...)
 		}
 	}
 	return c
@@ -468,6 +619,8 @@ type encStats struct {
 	writes, bytes          int
 	maxWrite               int // largest single Write that reached the destination
 	escapedNewline         bool
+	unencodable            int  // reports of samples that cannot be marshalled
+	failed                 bool // Run ended with an error other than the dropped count (only possible with unencodable > 0)
 }
 
 func checkEnc(c EncCase, o *vf.Obs) error {
@@ -485,7 +638,7 @@ func checkEnc(c EncCase, o *vf.Obs) error {
 	o.ClassIf(c.Queue == 1, "queue_1")
 	o.ClassIf(dropped > 0, "drops")
 	o.ClassIf(dropped > 0 && st.lines > 0, "drops_and_lines")
-	o.ClassIf(dropped == 0 && total > 0, "no_drops")
+	o.ClassIf(dropped == 0 && total > 0 && !st.failed, "no_drops")
 	o.ClassIf(c.RunDelayUs > 0, "report_before_run")
 	o.ClassIf(st.writes >= 2, "several_writes")
 	o.ClassIf(st.distinct < total, "duplicate_samples")
@@ -494,9 +647,40 @@ func checkEnc(c EncCase, o *vf.Obs) error {
 	o.ClassIf(st.escapedNewline, "escaped_newline")
 	o.ClassIf(c.Sink == "file", "sink_file")
 	o.ClassIf(c.Sink == "file" && c.WriteDelayUs > 0 && st.writes > c.SlowFrom, "sink_file_slow_write")
+	// samples that cannot be marshalled among the ordinary ones
+	if st.unencodable > 0 {
+		jsoniter := c.Kind != "closer" // the encoder under test (the closer kind marshals with encoding/json in the harness)
+		o.Class("unencodable_in_history")
+		o.ClassIf(st.failed, "unencodable_run_failed")
+		o.ClassIf(st.failed && jsoniter, "unencodable_run_failed_json_encoder")
+		o.ClassIf(!st.failed, "unencodable_all_dropped")
+		o.ClassIf(st.failed && st.lines > 0, "unencodable_run_failed_after_lines_written")
+		o.ClassIf(st.failed && dropped > 0, "unencodable_run_failed_and_drops")
+		o.ClassIf(c.Float6, "unencodable_float_6_digits")
+		o.ClassIf(c.Sink == "file", "unencodable_sink_file")
+		o.ClassIf(st.unencodable < total, "unencodable_among_ordinary")
+		seen := map[string]bool{}
+		mark := func(cond bool, name string) {
+			if cond && !seen[name] {
+				seen[name] = true
+				o.Class(name)
+			}
+		}
+		for _, rep := range c.Reporters {
+			for _, s := range rep {
+				if s.Bad > 0 && s.Bad < badPlaces {
+					mark(true, "unencodable_at_"+badPlaceNames[s.Bad])
+					mark(s.Bad != badWhole, "unencodable_inside_sample")
+					mark(s.BadVal <= 2, "unencodable_nan_inf")
+					mark(s.BadVal > 2, "unencodable_chan_func")
+				}
+			}
+		}
+	}
 	o.Note("reports", total)
 	o.Note("lines", st.lines)
 	o.Note("dropped", dropped)
+	o.Note("unencodable", st.unencodable)
 	return nil
 }
 
@@ -521,7 +705,7 @@ func encRun(c EncCase, memo map[string]string) (st encStats, err error) {
 	econf.BufferSize = c.BufferBytes
 	econf.ReporterConfig = aggregator.ReporterConfig{SampleQueueSize: c.Queue}
 	jconf := aggregator.JSONLineEncoderConfig{
-		JSONIterConfig:   aggregator.JSONIterConfig{SortMapKeys: c.SortKeys},
+		JSONIterConfig:   aggregator.JSONIterConfig{SortMapKeys: c.SortKeys, MarshalFloatWith6Digits: c.Float6},
 		BufferSizeConfig: coreutil.BufferSizeConfig{BufferSize: datasize.ByteSize(c.BufferBytes)},
 	}
 	var closer *lineEncoder
@@ -544,8 +728,16 @@ func encRun(c EncCase, memo map[string]string) (st encStats, err error) {
 
 	var expected []string
 	rounds := max(1, c.Rounds)
+	unencodable := 0 // reports of samples that cannot be marshalled: no line may ever stand for one of them
 	for _, rep := range c.Reporters {
 		for _, s := range rep {
+			if s.Bad > 0 {
+				if c.SortKeys {
+					return st, fmt.Errorf("harness: unencodable samples together with sort_map_keys are outside the generated region (see genEncCase)")
+				}
+				unencodable += rounds
+				continue
+			}
 			k, err := s.refKey()
 			if err != nil {
 				return st, fmt.Errorf("harness: reference encoding of %+v: %v", s, err)
@@ -555,7 +747,7 @@ func encRun(c EncCase, memo map[string]string) (st encStats, err error) {
 			}
 		}
 	}
-	total := len(expected)
+	total := len(expected) + unencodable
 
 	ctx, cancel := context.WithCancel(context.Background())
 	defer cancel()
@@ -597,18 +789,31 @@ func encRun(c EncCase, memo map[string]string) (st encStats, err error) {
 	}
 
 	// the dropped count carried by the Run error
+	// A history with samples that cannot be marshalled may end with another error (the aggregator
+	// gives up at the first such sample it takes from the queue: 'sample encode failed'); `failed`
+	// then. Every other history - and every history whose Run returned nil or nothing but the
+	// dropped count - is judged by the full law.
 	var dropped int64
+	failed := false
 	if runErr != nil {
 		var sd *aggregator.SomeSamplesDropped
-		if !errors.As(runErr, &sd) {
+		hasDrop := errors.As(runErr, &sd)
+		_, plain := runErr.(*aggregator.SomeSamplesDropped)
+		dropOnly := hasDrop && (plain || isCtxErrOrDropOnly(runErr))
+		switch {
+		case dropOnly:
+		case unencodable > 0:
+			failed = true
+		case !hasDrop:
 			return st, fmt.Errorf("Run returned %q: neither nil nor a SomeSamplesDropped error (the sink never fails)", runErr)
-		}
-		dropped = sd.Dropped
-		if dropped <= 0 {
-			return st, fmt.Errorf("Run returned a SomeSamplesDropped error with count %d", dropped)
-		}
-		if _, plain := runErr.(*aggregator.SomeSamplesDropped); !plain && !isCtxErrOrDropOnly(runErr) {
+		default:
 			return st, fmt.Errorf("Run returned %q: an error besides the dropped-samples count although nothing failed", runErr)
+		}
+		if hasDrop {
+			dropped = sd.Dropped
+			if dropped <= 0 {
+				return st, fmt.Errorf("Run returned a SomeSamplesDropped error with count %d", dropped)
+			}
 		}
 	}
 
@@ -648,9 +853,14 @@ func encRun(c EncCase, memo map[string]string) (st encStats, err error) {
 	if n, ex := got.minus(want); n > 0 {
 		return st, fmt.Errorf("%d output lines (of %d) equal no reported sample / appear more often than reported, e.g. %s", n, len(keys), strings.Join(ex, "; "))
 	}
-	if int64(len(keys))+dropped != int64(total) {
+	// (got within want also says: no line stands for a sample that cannot be marshalled - those are not in want)
+	if !failed && int64(len(keys))+dropped != int64(total) {
 		return st, fmt.Errorf("%d lines written + %d counted as dropped = %d, but %d samples were reported (Run error: %v)",
 			len(keys), dropped, int64(len(keys))+dropped, total, runErr)
+	}
+	if failed && int64(len(keys))+dropped >= int64(total) {
+		// the sample the aggregator failed at is neither a line nor a counted drop
+		return st, fmt.Errorf("Run failed with %q, yet %d lines written + %d counted as dropped >= %d samples reported", runErr, len(keys), dropped, total)
 	}
 	if err := rec.closedOnceAfterLastWrite("the data sink"); err != nil {
 		return st, err
@@ -665,7 +875,7 @@ func encRun(c EncCase, memo map[string]string) (st encStats, err error) {
 	}
 
 	st = encStats{total: total, lines: len(keys), distinct: len(want), dropped: dropped, writes: writes, bytes: len(data), maxWrite: rec.largestWrite(),
-		escapedNewline: bytes.Contains(data, []byte(`\n`))}
+		escapedNewline: bytes.Contains(data, []byte(`\n`)), unencodable: unencodable, failed: failed}
 	return st, nil
 }
 
